@@ -42,6 +42,14 @@ PROGRAMS = [
     "double d1 = 1.0, d2 = .5, d3 = 1., d4 = 1e10, d5 = 1.5e-3f, d6 = 2.0L, d7 = 0x1.8p3, d8 = 0x.1p-2f;",
     "int (*fp)(int (*)(void), char *[]); int (*afp[3])(int); int (*(*ffp)(int))(char); void (*sig(int s, void (*h)(int)))(int);",
     "const int *const *volatile *restrict crp; int *restrict rp; char const cc1;",
+    # round 8: repeated qualifiers in an array bound (6.7.3p4), before and after `static`
+    "void dq1(int a[const const static 3]); void dq2(int a[static const const 3]); void dq3(int a[const const 3], int b[const volatile const *]);",
+    # round 8: an _Atomic(T) specifier followed by a redeclared typedef name
+    "typedef int T; void at5(void) { _Atomic(int) T; T = 1; } void at6(void) { static _Atomic(long) T, *q; }",
+    # round 8: a qualified array bound that starts with a dereference; assignment / comma index in offsetof
+    "void ab1(int *p, int a[const *p], int b[restrict *p + 1]); struct OS { int a[4]; }; int ab2(int i, int j) { return offsetof(struct OS, a[i, j]) + offsetof(struct OS, a[i = 2]); }",
+    # round 8: a label / case prefix directly followed by a typedef-named label
+    "typedef int T; typedef int U; typedef int V; int lb1(int x) { L: T: x = 1; switch (x) { case 1: U: x = 2; default: V: ; } return x; }",
     # --- K&R, function definitions ----------------------------------------
     "int knr(a, b, c) int a; char *b; double c; { return a; }",
     "int knr2(a) { return a; }",
